@@ -41,10 +41,10 @@ macro_rules! chain_inst {
             fn clone_box(&self) -> Box<dyn ChainDyn> { Box::new(CInst::<$W, $S, $P>(self.0.clone())) }
             fn heads(&self) -> (u128, u128) { parse_heads(&format!("{:?}", self.0.state())) }
             fn is_whole(&self) -> bool { self.0.is_whole() }
-            fn dec(&mut self, cdf: &[u64]) -> Result<usize, String> { self.0.decode_symbol(Tab::<$W, $P>::new(cdf)).map_err(cerr) }
-            fn enc(&mut self, cdf: &[u64], sym: usize) -> Result<(), String> { self.0.encode_symbol(sym, Tab::<$W, $P>::new(cdf)).map_err(cerr) }
-            fn dec_symbols(&mut self, tabs: &[Vec<u64>]) -> Vec<Result<usize, String>> { self.0.decode_symbols(tabs.iter().map(|c| Tab::<$W, $P>::new(c))).map(|r| r.map_err(cerr)).collect() }
-            fn enc_symbols_reverse(&mut self, items: &[(usize, Vec<u64>)]) -> Result<(), String> { self.0.encode_symbols_reverse(items.iter().map(|(s, c)| (*s, Tab::<$W, $P>::new(c)))).map_err(cerr) }
+            fn dec(&mut self, cdf: &[u64]) -> Result<usize, String> { if crate::tab::narrow::<<$W as crate::tab::NarrowOf>::N, $P>() { self.0.decode_symbol(Tab::<<$W as crate::tab::NarrowOf>::N, $P>::new(cdf)).map_err(cerr) } else { self.0.decode_symbol(Tab::<$W, $P>::new(cdf)).map_err(cerr) } }
+            fn enc(&mut self, cdf: &[u64], sym: usize) -> Result<(), String> { if crate::tab::narrow::<<$W as crate::tab::NarrowOf>::N, $P>() { self.0.encode_symbol(sym, Tab::<<$W as crate::tab::NarrowOf>::N, $P>::new(cdf)).map_err(cerr) } else { self.0.encode_symbol(sym, Tab::<$W, $P>::new(cdf)).map_err(cerr) } }
+            fn dec_symbols(&mut self, tabs: &[Vec<u64>]) -> Vec<Result<usize, String>> { if crate::tab::narrow::<<$W as crate::tab::NarrowOf>::N, $P>() { self.0.decode_symbols(tabs.iter().map(|c| Tab::<<$W as crate::tab::NarrowOf>::N, $P>::new(c))).map(|r| r.map_err(cerr)).collect() } else { self.0.decode_symbols(tabs.iter().map(|c| Tab::<$W, $P>::new(c))).map(|r| r.map_err(cerr)).collect() } }
+            fn enc_symbols_reverse(&mut self, items: &[(usize, Vec<u64>)]) -> Result<(), String> { if crate::tab::narrow::<<$W as crate::tab::NarrowOf>::N, $P>() { self.0.encode_symbols_reverse(items.iter().map(|(s, c)| (*s, Tab::<<$W as crate::tab::NarrowOf>::N, $P>::new(c)))).map_err(cerr) } else { self.0.encode_symbols_reverse(items.iter().map(|(s, c)| (*s, Tab::<$W, $P>::new(c)))).map_err(cerr) } }
             fn change(self: Box<Self>, np: usize) -> Result<Box<dyn ChainDyn>, String> {
                 match np { $( $NP => self.0.change_precision::<$NP>().map(|c| Box::new(CInst::<$W, $S, $NP>(c)) as Box<dyn ChainDyn>).map_err(|e| format!("{:?}", e)), )* _ => panic!("unsupported precision {}", np) }
             }
